@@ -390,6 +390,14 @@ func propC19(c *Check) {
 			key := FuncKey(f) + "|" + msg
 			// only exits that are actually returned from the hook (not the tx-only helpers reachable through shared functions)
 			keysFound = append(keysFound, key)
+			if FuncKey(f) == "x/goat/keeper.Keeper.Finalized" {
+				if _, listed := reviewed[key]; !listed {
+					// every failure of the engine hand-off aborts the block by design (C09): wrapped engine errors and
+					// malformed engine answers are engine faults, not broken invariants of this chain
+					c.Held("R3", "block-hook-error-exit "+key, p.InstrPos(ci), "engine hand-off: a failure must abort the block (C09)")
+					continue
+				}
+			}
 			if why, ok := reviewed[key]; ok {
 				found[key] = true
 				c.Held("R3", "block-hook-error-exit "+key, p.InstrPos(ci), "reviewed: "+why)
